@@ -20,7 +20,10 @@ from .core import ENG
 
 VERIF = os.path.dirname(os.path.dirname(os.path.abspath(__file__)))
 REPLAY_DIR = os.environ.get('VERIF_REPLAY_DIR') or os.path.join(VERIF, 'replays')
-EVID_DIR = os.path.join(VERIF, 'evidence')
+# evidence under /verif/evidence describes /repo only: a run against another tree (ONSAGER_REPO: seeded changes in scratch
+# worktrees) writes its evidence to a scratch directory instead
+_OTHER = os.path.realpath(os.environ.get('ONSAGER_REPO') or '/repo') != os.path.realpath('/repo')
+EVID_DIR = os.environ.get('VERIF_EVIDENCE_DIR') or (os.path.join('/tmp', 'verif-evidence-other-tree') if _OTHER else os.path.join(VERIF, 'evidence'))
 KNOWN = os.path.join(VERIF, 'known_findings.json')
 
 
